@@ -152,6 +152,34 @@ pub fn inherent_risk(idl: &Idl) -> Option<(String, String)> {
     None
 }
 
+/// Members with shapes that are easy to get wrong, added to every driven interface: string sets
+/// next to maps of one-field and of optional values, optionals below arrays/maps, a method whose
+/// inputs are all optional (arguments serialise to `{}`), and several errors of equal name length.
+pub fn add_probe_members(g: &mut GenIdl, rng: &mut Rng) {
+    let has = |g: &GenIdl, n: &str| g.idl.members.iter().any(|m| m.name == n);
+    if has(g, "ProbeShapes") || has(g, "ProbeAllOptional") || has(g, "ErrA") || has(g, "ErrB") {
+        return;
+    }
+    let set = Ty::Dict(Box::new(Ty::Struct(vec![])));
+    let shapes = vec![
+        ("set".to_string(), set.clone()),
+        ("one".to_string(), Ty::Dict(Box::new(Ty::Struct(vec![("a".into(), Ty::Int)])))),
+        ("optset".to_string(), Ty::Opt(Box::new(set.clone()))),
+        ("arrset".to_string(), Ty::Array(Box::new(set))),
+        ("arropt".to_string(), Ty::Array(Box::new(Ty::Opt(Box::new(Ty::Int))))),
+        ("mapopt".to_string(), Ty::Dict(Box::new(Ty::Opt(Box::new(Ty::Str))))),
+        ("same_a".to_string(), Ty::Str),
+        ("same_b".to_string(), Ty::Str),
+    ];
+    g.idl.members.push(Member { kind: MKind::Method, name: "ProbeShapes".into(), comments: vec![], a: Ty::Struct(shapes.clone()), b: Some(Ty::Struct(shapes)) });
+    let opts = vec![("limit".to_string(), Ty::Opt(Box::new(Ty::Int))), ("filter".to_string(), Ty::Opt(Box::new(Ty::Str))), ("flags".to_string(), Ty::Opt(Box::new(Ty::Array(Box::new(Ty::Bool)))))];
+    g.idl.members.push(Member { kind: MKind::Method, name: "ProbeAllOptional".into(), comments: vec![], a: Ty::Struct(opts), b: Some(Ty::Struct(vec![("n".into(), Ty::Int)])) });
+    g.idl.members.push(Member { kind: MKind::Error, name: "ErrA".into(), comments: vec![], a: Ty::Struct(vec![("why".into(), Ty::Str)]), b: None });
+    g.idl.members.push(Member { kind: MKind::Error, name: "ErrB".into(), comments: vec![], a: Ty::Struct(vec![("code".into(), Ty::Int), ("why".into(), Ty::Opt(Box::new(Ty::Str)))]), b: None });
+    let level = rng.below(2);
+    g.text = render(&g.idl, rng, level);
+}
+
 #[derive(Debug)]
 pub enum Emit {
     Ok(String),
@@ -291,7 +319,10 @@ pub fn c09_main(ctx: &Ctx, repo_bin_dir: Option<String>) -> i32 {
     let mut all_ok: Vec<GenIdl> = Vec::new();
     let mut crate_no = 0;
     for i in 0..n {
-        let g = gen_for_generator(&mut rng, i, 35, 1 + i % 4);
+        let mut g = gen_for_generator(&mut rng, i, 35, 1 + i % 4);
+        if i % 2 == 0 && g.risky.is_none() {
+            add_probe_members(&mut g, &mut rng);
+        }
         let nontrivial = g.idl.members.iter().any(|m| has_anon(&m.a) || m.b.as_ref().map(has_anon).unwrap_or(false)) || g.risky.is_some() || g.text.contains("type:") || g.text.contains("fn");
         ctx.case(if nontrivial { Some(hash_of(&("lib", &g.text))) } else { None });
         let wit = |m: String| json!({"engine": "c09", "front_end": "generate()", "definition": g.text, "risky_feature": g.risky, "message": m});
